@@ -2,6 +2,7 @@
   C14 — exited threads give their IDs back: ID capacity is never lost.
 -/
 import CppUtil.Proofs.IdMgrInv
+import CppUtil.Proofs.IdMgrLive
 import CppUtil.Gen.Thread
 
 namespace CppUtil.Props
@@ -149,5 +150,33 @@ theorem c14_release_clears (n : Nat) (s s' : St) (t id : Nat) (e : Option Ev)
     exact getD_set_self hid
   · show (s.threads.set t .dead)[t]? = _
     exact List.getElem?_set_self (getElem?_lt' ht)
+
+/-- **every call to GetThreadID returns — bounded waiting for every interleaving.**  In any reachable state in which
+    nobody is inside the exit path and there are at least as many free IDs as threads inside the claim loop, a thread
+    `t` of the claim loop owns an ID after at most `claimers * (n + 2) + n + 2` of its own atomic steps, whatever steps the
+    other threads take in between (`sched` is any sequence of thread choices; a thread with nothing to do stays put).
+    Under a fair scheduler every thread gets that many steps. -/
+theorem c14_claim_returns (n : Nat) (hn : 0 < n) (ef : Bool) (nthreads : Nat) (acts : List Act) (s : St)
+    (h : run n ef (mkSt n nthreads) acts = some s) (hne : NoExit s) (hroom : claimers s ≤ freeCnt s)
+    (t : Nat) (l : TLoc) (ht : s.threads[t]? = some l) (hc : isClaimer l = true)
+    (sched : List Nat) (hcount : claimers s * (n + 2) + n + 1 < sched.count t) :
+    ∃ id, (execA n ef s sched).threads[t]? = some (.owner id) := by
+  have hI := inv_run hn (inv_init n nthreads ef) h
+  have hL : Live n ef s := ⟨hI, hne, hroom⟩
+  exact claim_within hn t sched s _ hL (pot_init hn hL ht hc) hcount
+
+/-- `stepA` is the model's step where the thread has one: `execA` runs are runs of the model -/
+theorem c14_stepA_is_step (n : Nat) (ef : Bool) (s s' : St) (t : Nat) (e : Option Ev)
+    (h : step n ef s (.atom t) = some (s', e)) : stepA n ef s t = s' := by
+  unfold stepA; rw [h]
+
+/-- non-vacuity: capacity 2, three threads; thread 0 owns ID 1, threads 1 and 2 race for the one free ID... that is one
+    claimer too many for `hroom`; with thread 2 not started the hypotheses hold and thread 1 gets ID 0 -/
+theorem c14_claim_returns_nonvacuous :
+    (run 2 true (mkSt 2 3) [.begin 0 0, .atom 0, .atom 0, .begin 1 0]).map
+      (fun s => (decide (claimers s ≤ freeCnt s), claimers s, freeCnt s,
+                 (execA 2 true s [1, 1, 1, 1]).threads[1]?)) =
+    some (true, 1, 1, some (.owner 0)) := by
+  decide +kernel
 
 end CppUtil.Props
